@@ -38,7 +38,7 @@ PROPS = {
     "C01": P_(["values", "dagproto", "nodeexec", "nodebuild", "retwrap"], ["programs", "programs_flat", "reference_matrix"], claim="other",
               explanation="Mixed: the value-level functions between the recorded node table and the returned value are proved against their contracts; that the recorded table is the meaning of the describing function (tracing) is only covered by the bounded program-level stand-in."),
     "C02": P_(["scheduler", "values", "nodeexec", "graphbuild", "nodebuild"], ["reference_matrix", "graph_build"], dict(SW)),
-    "C03": P_(["scheduler", "values", "digraph", "dagproto", "graphbuild", "nodebuild"], ["programs_flat", "selection", "graph_build"], dict(SW, active=True)),
+    "C03": P_(["scheduler", "values", "digraph", "dagproto", "graphbuild", "nodebuild"], ["programs_flat", "selection", "graph_build", "reference_matrix"], dict(SW, active=True)),
     "C04": P_(["scheduler", "values", "dagproto", "dagadmin"], ["config"], dict(SW)),
     "C05": P_(["scheduler", "nodeexec"], ["config"], dict(SW)),
     "C06": P_(["scheduler", "digraph", "dagproto", "graphbuild"], ["config", "graph_build", "priority_table"], dict(SW)),
